@@ -1,7 +1,6 @@
 package netutil
 
 import (
-	"net"
 	"strings"
 )
 
@@ -49,11 +48,43 @@ func StripHostPort(h string) string {
 		return strings.TrimSuffix(h, ".")
 	}
 
-	host, _, err := net.SplitHostPort(h)
-	if err != nil {
+	host, ok := splitHost(h)
+	if !ok {
 		return h // on error, return unchanged
 	}
 	return strings.TrimSuffix(host, ".")
+}
+
+// splitHost returns the host of a "host:port", "[host]:port" or "[host%zone]:port" address with the rules of
+// [net.SplitHostPort], but reports a malformed address with a boolean instead of an allocated error: it runs on
+// every request routed by hostname, and a host such as "[::1]" (no port) is a perfectly ordinary one.
+func splitHost(hostport string) (host string, ok bool) {
+	j, k := 0, 0
+
+	// The port starts after the last colon.
+	i := strings.LastIndexByte(hostport, ':')
+	if i < 0 {
+		return "", false
+	}
+
+	if hostport[0] == '[' {
+		// Expect the first ']' just before the last ':'.
+		end := strings.IndexByte(hostport, ']')
+		if end < 0 || end+1 != i {
+			return "", false
+		}
+		host = hostport[1:end]
+		j, k = 1, end+1 // there can't be a '[' resp. ']' before these positions
+	} else {
+		host = hostport[:i]
+		if strings.IndexByte(host, ':') >= 0 {
+			return "", false
+		}
+	}
+	if strings.IndexByte(hostport[j:], '[') >= 0 || strings.IndexByte(hostport[k:], ']') >= 0 {
+		return "", false
+	}
+	return host, true
 }
 
 // validOptionalPort reports whether port is either an empty string
